@@ -780,12 +780,12 @@ impl Gen<'_> {
                     }
                     self.emit(format!("li {}, {n1}", self.reg("a7")));
                     self.emit("ecall".into());
-                    if self.r.chance(1, 2) {
-                        // an ordinary instruction between the two: the second ecall is not the
-                        // direct successor of the first
-                        self.emit(format!("addi {0}, {0}, 1", self.reg("t3")));
-                    }
                     self.emit_label(&lx);
+                    if self.r.chance(1, 2) {
+                        // an ordinary instruction between the two (behind the join label): the
+                        // second ecall is not the direct successor of the first
+                        self.emit(format!("addi {0}, {0}, 0", self.reg("t3")));
+                    }
                     self.emit("ecall".into());
                     if in_fn && self.r.chance(1, 2) {
                         // directly followed by a further return of the function
@@ -987,6 +987,32 @@ impl Gen<'_> {
             self.emit("beqz a0, nowhere_defined".into());
         }
         self.exit();
+        if cfg.code_after_exit && self.r.chance(1, 3) {
+            // dead code after the exit: a two-armed loop that nothing leads into; one arm leaves a
+            // fact (a register or a memory fact), and the block that closes the loop stands in
+            // front of the jump from the other arm
+            let (lp, la, li) = (self.fresh("dpoll"), self.fresh("dagain"), self.fresh("didle"));
+            self.emit_label(&lp);
+            let c = self.cond(&mctx, &li);
+            self.emit(c);
+            let v = self.r.range(0, 3);
+            let fact = match self.r.below(4) {
+                0 => format!("li {}, {v}", self.reg("t1")),
+                1 => format!("csrrwi {}, 64, {v}", self.reg("zero")),
+                2 => format!("csrrw {}, uscratch, {}", self.reg("zero"), self.reg("t1")),
+                _ => format!("sw {}, {}({})", self.reg("t1"), 4 * v, self.reg("sp")),
+            };
+            self.emit(fact);
+            self.emit(format!("j {la}"));
+            self.emit_label(&la);
+            if self.r.chance(1, 2) {
+                self.emit(format!("addi {0}, {0}, -1", self.reg("t0")));
+            }
+            self.emit(format!("j {lp}"));
+            self.emit_label(&li);
+            self.emit(format!("addi {0}, {0}, 1", self.reg("t1")));
+            self.emit(format!("j {la}"));
+        }
         if cfg.code_after_exit && self.r.chance(1, 2) {
             // dead code after the exit: a few blocks that jump among themselves in no particular
             // structure (loops entered from nowhere, blocks placed before the jump that enters them)
@@ -994,13 +1020,23 @@ impl Gen<'_> {
             let labels: Vec<String> = (0..n).map(|_| self.fresh("dead")).collect();
             for k in 0..n {
                 self.emit_label(&labels[k].clone());
-                match self.r.below(3) {
+                match self.r.below(4) {
                     0 => {
                         let v = self.r.range(0, 3);
                         let d = *self.r.pick(&["t1", "a7", "t0"]);
                         self.emit(format!("li {}, {v}", self.reg(d)));
                     }
                     1 => self.arith(&mut mctx),
+                    2 => {
+                        // something the memory facts remember: a CSR write, a store to the frame
+                        let v = self.r.range(0, 3);
+                        let s = match self.r.below(3) {
+                            0 => format!("csrrwi {}, 64, {v}", self.reg("zero")),
+                            1 => format!("csrrw {}, uscratch, {}", self.reg("zero"), self.reg("t1")),
+                            _ => format!("sw {}, {}({})", self.reg("t1"), 4 * v, self.reg("sp")),
+                        };
+                        self.emit(s);
+                    }
                     _ => {}
                 }
                 let t = self.r.pick(&labels).clone();
